@@ -237,6 +237,11 @@ pub enum Mutation {
     FrameLen(u32),
     /// overwrite `len` bytes at `pos` with bytes derived from `seed`
     Scribble { pos: u32, len: u32, seed: u64 },
+    /// re-encode the (possibly framed) message with fields `i` and `j` exchanged: tags out of
+    /// ascending order, everything else consistent (no-op when the datagram does not decode)
+    SwapFields(u8, u8),
+    /// re-encode with field `i` repeated (tag order no longer strictly ascending)
+    RepeatField(u8),
 }
 
 #[derive(Serialize, Deserialize, Clone, Debug, PartialEq)]
